@@ -255,6 +255,10 @@ def equal(case, a, b):
     n = len(docs)
     total = sum(len(d or []) for d in docs)
     view_lens = b["lens"]
+    if len(a["q"]) != len(case["queries"]) or len(b["vals"]) != len(case["queries"]):
+        return False                      # one answer per query on both sides
+    if len(a.get("s", [])) != len(case.get("squeries", [])):
+        return False
     for q, iv, sv in zip(case["queries"], a["q"], b["vals"]):
         if q[0] == "phrase":
             if not c03._phrase_ok(iv, sv):
